@@ -1,1 +1,185 @@
-/-! Property theorems for C03 (see /verif/DESIGN.md). Only property theorems and non-vacuity examples live here. -/
+import Proofs.C03First
+/-! Property theorems for C03 (see /verif/DESIGN.md). Only property theorems and non-vacuity examples live here.
+
+Model: `GoawkModel.C03` (fields and functions of `lexer.Lexer`, generated keyword / operator tables).
+`trueLineCol src off` is the property's position rule: line = 1 + newlines before `off`, column = 1 + bytes since the last
+newline, carriage returns not counted.  `Token.off` is a ghost value: the byte offset at which the lexer took the position. -/
+namespace GoawkModel.C03
+open GoawkModel
+open GoawkModel.Generated.C03Lex
+
+/-! ## regenerated source facts the hand model was written against -/
+
+theorem gen_matches_next : nextSrc =
+    "l.pos = l.nextPos; if l.offset >= len(l.src) { if l.ch != 0 { l.ch = 0 l.offset++ } return }; ch := l.src[l.offset]; if ch == '\\n' { l.nextPos.Line++ l.nextPos.Column = 1 } else if ch != '\\r' { l.nextPos.Column++ }; l.ch = ch; l.offset++" := rfl
+
+theorem gen_matches_unread : unreadSrc = "l.offset--; l.nextPos = l.pos; l.pos.Column--; l.ch = l.src[l.offset-1]" := rfl
+
+theorem gen_matches_choice : choiceSrc = "if l.ch == ch { l.next() return two }; return one" := rfl
+
+theorem gen_matches_predicates :
+    wsCond = "l.ch == ' ' || l.ch == '\\t' || l.ch == '\\r' || l.ch == '\\\\'" ∧
+    isNameStartSrc = "return ch == '_' || ch >= 'a' && ch <= 'z' || ch >= 'A' && ch <= 'Z'" ∧
+    isDigitSrc = "return ch >= '0' && ch <= '9'" ∧
+    defaultCase = "tok = ILLEGAL; val = \"unexpected char\"" := ⟨rfl, rfl, rfl, rfl⟩
+
+/-- the cases of `switch ch` that are not plain operator shapes are exactly the digits, `.`, the two quotes and `&` (hand-modelled) -/
+theorem gen_matches_special : special = [48, 49, 50, 51, 52, 53, 54, 55, 56, 57, 46, 34, 39, 38] := by decide
+
+/-- the operator trie extracted from `switch ch` -/
+theorem gen_matches_ops : ops = [
+    (36, T.DOLLAR, []), (64, T.AT, []), (123, T.LBRACE, []), (125, T.RBRACE, []),
+    (61, T.ASSIGN, [(61, T.EQUALS, [])]), (60, T.LESS, [(61, T.LTE, [])]),
+    (62, T.GREATER, [(61, T.GTE, []), (62, T.APPEND, [])]),
+    (40, T.LPAREN, []), (41, T.RPAREN, []), (44, T.COMMA, []), (59, T.SEMICOLON, []),
+    (43, T.ADD, [(43, T.INCR, []), (61, T.ADD_ASSIGN, [])]), (45, T.SUB, [(45, T.DECR, []), (61, T.SUB_ASSIGN, [])]),
+    (42, T.MUL, [(42, T.POW, [(61, T.POW_ASSIGN)]), (61, T.MUL_ASSIGN, [])]),
+    (47, T.DIV, [(61, T.DIV_ASSIGN, [])]), (37, T.MOD, [(61, T.MOD_ASSIGN, [])]),
+    (91, T.LBRACKET, []), (93, T.RBRACKET, []), (10, T.NEWLINE, []), (94, T.POW, [(61, T.POW_ASSIGN, [])]),
+    (33, T.NOT, [(61, T.NOT_EQUALS, []), (126, T.NOT_MATCH, [])]), (126, T.MATCH, []), (63, T.QUESTION, []),
+    (58, T.COLON, []), (124, T.PIPE, [(124, T.OR, [])])] := rfl
+
+/-- the keyword table has the 41 entries the model was validated with, none of them mapping to a non-keyword token -/
+theorem gen_matches_keywords : keywords.length = 41 ∧ keywords.all (fun kv => T.BEGIN ≤ kv.2 && kv.2 ≤ T.F_TOUPPER) = true ∧
+    tokenNames.length = 89 ∧ (T.ILLEGAL, T.EOF, T.NAME, T.NUMBER, T.STRING, T.REGEX) = (0, 1, 85, 86, 87, 88) := by decide
+
+/-! ## the position bookkeeping -/
+
+/-- `trueLineCol` is the property's rule, stated recursively: offset 0 is 1:1 and each byte moves the position as the statement says -/
+theorem trueLineCol_spec (src : Bytes) :
+    trueLineCol src 0 = ⟨1, 1⟩ ∧
+    ∀ off, off < src.length → trueLineCol src (off + 1) =
+      (if byteAt src off = 10 then ⟨(trueLineCol src off).line + 1, 1⟩
+       else if byteAt src off ≠ 13 then ⟨(trueLineCol src off).line, (trueLineCol src off).col + 1⟩
+       else trueLineCol src off) :=
+  ⟨trueLineCol_zero src, fun off h => by rw [trueLineCol_succ src off h]; rfl⟩
+
+/-- `next()` keeps the lexer's `pos` / `nextPos` equal to the true line/column of the current / next byte offset, for every source
+and every reachable state — including all further calls at the end of input (where a column used to be added: G03-1, repaired) -/
+theorem next_preserves_inv (src : Bytes) (s : St) : Inv src s → Inv src (next src s) := next_inv
+
+/-- `unread()` restores all six lexer fields exactly when the character that becomes current again is a real byte other than
+newline and carriage return — the precondition in the Go comment; the un-read character itself may be a newline, a CR or the end
+of input (F05, repaired) -/
+theorem unread_undoes_next (src : Bytes) (s : St) (h : G src s) (h0 : s.ch ≠ 0) (h10 : s.ch ≠ 10) (h13 : s.ch ≠ 13) :
+    unread src (next src s) = s := unread_next h h0 h10 h13
+
+/-- a dangling exponent (`1e`, `1e+` followed by no digit — at a line end, a CR, the end of input, anything) leaves the lexer
+exactly at the `e`: position, next position, offset and current character -/
+theorem dangling_exponent_restores (src : Bytes) (fuel : Nat) (s : St) (h : Inv src s) (he : s.ch = 101 ∨ s.ch = 69)
+    (hd : isDigit (if (next src s).ch = 43 ∨ (next src s).ch = 45 then next src (next src s) else next src s).ch = false) :
+    scanExponent src fuel s = s := scanExponent_dangling fuel h he hd
+
+/-- the initial state satisfies the invariant and every `Scan()` / `ScanRegex()` call preserves it (all loops, strings with every
+escape form, regexes, comments, line continuations, CR handling, the exponent un-read) -/
+theorem scan_preserves_inv (src : Bytes) (fuel : Nat) (s : St) (h : Inv src s) :
+    Inv src (init src) ∧ Inv src (scanTok src fuel s).1 ∧ Inv src (scanRegex src fuel s).1 :=
+  ⟨init_inv src, (scanTok_ok fuel h).1, scanRegex_inv fuel h⟩
+
+/-! ## the headline statements -/
+
+/-- the headline: every token of every token stream (any source, any pattern of `ScanRegex()` calls after DIV / DIV_ASSIGN) other than
+EOF / ILLEGAL carries the true line and column of a real source byte — the byte at which the lexer started the token (`t.off`; for a
+REGEX token the opening slash) -/
+theorem lex_pos_correct (src : Bytes) (bits : List Bool) (t : Token) (hm : t ∈ lex src bits)
+    (h1 : t.tok ≠ T.EOF) (h2 : t.tok ≠ T.ILLEGAL) :
+    t.off < src.length ∧ t.pos = trueLineCol src t.off ∧ byteAt src t.off ≠ 0 := by
+  rcases lexLoop_tokOK (fuelFor src) (fuelFor src) (init src) bits (init_inv src) t hm with h | ⟨h, _⟩
+  · exact h
+  · rcases h with h | h
+    · exact absurd h h2
+    · exact absurd h h1
+
+/-- what `Scan()` guarantees when it returns DIV or DIV_ASSIGN (the only tokens after which a client may call `ScanRegex()`): the lexer
+stands directly behind the `/` or `/=`, which is why `pos.Column -= 1` / `-= 2` lands on the slash -/
+theorem scan_div_post (src : Bytes) (fuel : Nat) (s : St) (h : Inv src s) :
+    DivPost src (scanTok src fuel s).1 (scanTok src fuel s).2 := scanTok_div fuel h
+
+/-- every error position the lexer reports (ILLEGAL from `Scan()` or `ScanRegex()`), and the EOF position, designates a byte offset
+of the source, the end of the source included — for every source and every pattern of ScanRegex calls -/
+theorem error_pos_in_source (src : Bytes) (bits : List Bool) (t : Token) (hm : t ∈ lex src bits)
+    (_h : t.tok = T.ILLEGAL ∨ t.tok = T.EOF) : ∃ o, o ≤ src.length ∧ t.pos = trueLineCol src o := by
+  rcases lexLoop_tokOK (fuelFor src) (fuelFor src) (init src) bits (init_inv src) t hm with h' | ⟨_, h'⟩
+  · exact atByte_posInSrc h'
+  · exact h'
+
+/-- consequence for a client that reports errors at token positions (the parser's `p.pos`): every position in the stream is inside
+the source -/
+theorem token_pos_in_source (src : Bytes) (bits : List Bool) (t : Token) (hm : t ∈ lex src bits) :
+    ∃ o, o ≤ src.length ∧ t.pos = trueLineCol src o := by
+  rcases lexLoop_tokOK (fuelFor src) (fuelFor src) (init src) bits (init_inv src) t hm with h' | ⟨_, h'⟩
+  · exact atByte_posInSrc h'
+  · exact h'
+
+/-- termination: the model is a total function by construction (every Go loop is a structural recursion on fuel); this theorem says
+the fuel `src.length + 2` is never what stops the client loop — for every source and every pattern of ScanRegex calls the token stream
+ends in EOF or ILLEGAL -/
+theorem lex_total (src : Bytes) (bits : List Bool) :
+    ∃ t, (lex src bits).getLast? = some t ∧ (t.tok = T.EOF ∨ t.tok = T.ILLEGAL) :=
+  lexLoop_total (fuelFor src) (fuelFor src) (init src) bits (init_inv src) (by unfold fuelFor; omega)
+
+/-- each `Scan()` either reports EOF / ILLEGAL or moves the lexer forward by at least one byte, the exponent un-read included -/
+theorem scan_consumes (src : Bytes) (fuel : Nat) (s : St) (h : Inv src s) :
+    (scan src fuel s).2.tok = T.EOF ∨ (scan src fuel s).2.tok = T.ILLEGAL ∨ s.offset < (scan src fuel s).1.offset :=
+  scan_progress fuel h
+
+/-- with the fuel `lex` uses, every inner loop of the model stops by the exit condition of the Go loop it stands for (so the fuel-bounded
+model and the unbounded Go loops coincide): character-class loops, the blank/continuation loop, `parseString`, the regex loop -/
+theorem loops_exit_by_condition (src : Bytes) (s : St) (h : Inv src s) :
+    (∀ p : UInt8 → Bool, p 0 = false → p (whileCh src p (fuelFor src) s).ch = false) ∧
+    ((skipWs src (fuelFor src) s).2 = true ∨ isWs (skipWs src (fuelFor src) s).1.ch = false) ∧
+    (∀ q acc, (∃ m, (parseString src q (fuelFor src) s acc).2 = .error m) ∨
+       (parseString src q (fuelFor src) s acc).1.ch = q ∨ (parseString src q (fuelFor src) s acc).1.ch = 0) ∧
+    (∀ acc, (∃ m, (regexLoop src (fuelFor src) s acc).2 = .error m) ∨ (regexLoop src (fuelFor src) s acc).1.ch = 47) := by
+  have hn : src.length + 2 ≤ fuelFor src + s.offset := by unfold fuelFor; omega
+  exact ⟨fun p hp => whileCh_exits p hp _ s h hn, skipWs_exits _ s h hn, fun q acc => parseString_exits q _ s acc h hn,
+    fun acc => regexLoop_exits _ s acc h hn⟩
+
+/-- the offset a token is positioned at holds a byte the lexer does not skip — not a blank, tab, CR, continuation backslash or `#` —
+i.e. the position is taken at the token's own first byte, not inside the white space or comment before it -/
+theorem first_byte_not_skipped (src : Bytes) (bits : List Bool) (t : Token) (hm : t ∈ lex src bits)
+    (h1 : t.tok ≠ T.EOF) (h2 : t.tok ≠ T.ILLEGAL) : isWs (byteAt src t.off) = false ∧ byteAt src t.off ≠ 35 := by
+  rcases lexLoop_first (fuelFor src) (init src) bits (init_inv src) t hm with h | h | h
+  · exact absurd h h1
+  · exact absurd h h2
+  · exact h
+
+/-- the first guard of the CLI's `showSourceLine` (`pos.Line < 1 || pos.Line > len(bytes.Split(src, "\n"))`) never fires for a position the
+lexer reports: the line exists (there are `1 + #newlines` lines), and line and column are at least 1 -/
+theorem reported_line_exists (src : Bytes) (bits : List Bool) (t : Token) (hm : t ∈ lex src bits) :
+    1 ≤ t.pos.line ∧ t.pos.line ≤ 1 + (src.filter (· = 10)).length ∧ 1 ≤ t.pos.col := by
+  obtain ⟨o, _, hp⟩ := token_pos_in_source src bits t hm
+  rw [hp]
+  refine ⟨by simp [trueLineCol, lineOf], ?_, by simp [trueLineCol, colOf]⟩
+  show lineOf src o ≤ _
+  unfold lineOf
+  have := ((List.take_sublist o src).filter (fun b => decide (b = 10))).length_le
+  omega
+
+/-! ## non-vacuity: the hypotheses are met by concrete non-trivial instances -/
+
+/-- `1.5⏎ ==` : positions across a line end -/
+example : (lex [49, 46, 53, 10, 32, 61, 61] []).map (fun t => (t.pos.line, t.pos.col, t.tok, t.off)) =
+    [(1, 1, T.NUMBER, 0), (1, 4, T.NEWLINE, 3), (2, 2, T.EQUALS, 5), (2, 4, T.EOF, 7)] := by decide
+
+/-- `1e⏎x` : the exponent un-read across a newline (F05 witness): NAME `e` at 1:2, NEWLINE at 1:3, `x` at 2:1 -/
+example : (lex [49, 101, 10, 120] []).map (fun t => (t.pos.line, t.pos.col, t.tok, t.off)) =
+    [(1, 1, T.NUMBER, 0), (1, 2, T.NAME, 1), (1, 3, T.NEWLINE, 2), (2, 1, T.NAME, 3), (2, 2, T.EOF, 4)] := by decide
+
+/-- `1e+\r==` : two characters un-read before a carriage return -/
+example : (lex [49, 101, 43, 13, 61, 61] []).map (fun t => (t.pos.line, t.pos.col, t.tok, t.off)) =
+    [(1, 1, T.NUMBER, 0), (1, 2, T.NAME, 1), (1, 3, T.ADD, 2), (1, 4, T.EQUALS, 4), (1, 6, T.EOF, 6)] := by decide
+
+/-- `"\` (G03-1 witness): the error position is the end of the source, 1:3 -/
+example : (lex [34, 92] []).map (fun t => (t.pos.line, t.pos.col, t.tok)) = [(1, 3, T.ILLEGAL)] ∧
+    trueLineCol [34, 92] 2 = ⟨1, 3⟩ := by decide
+
+/-- `x /a\/b/` with ScanRegex after the DIV: REGEX token at the slash -/
+example : (lex [120, 32, 47, 97, 92, 47, 98, 47] [true]).map (fun t => (t.pos.line, t.pos.col, t.tok, t.off, t.val)) =
+    [(1, 1, T.NAME, 0, [120]), (1, 3, T.DIV, 2, []), (1, 3, T.REGEX, 2, [97, 47, 98]), (1, 9, T.EOF, 8, [])] := by decide
+
+/-- the invariant's hypotheses of `unread_undoes_next` are met in a real state: after `NewLexer("e\n")` -/
+example : G [101, 10] (init [101, 10]) ∧ (init [101, 10]).ch ≠ 0 ∧ unread [101, 10] (next [101, 10] (init [101, 10])) = init [101, 10] := by
+  refine ⟨⟨by decide, by decide, by decide, by decide, by decide⟩, by decide, by decide⟩
+
+end GoawkModel.C03
